@@ -39,26 +39,30 @@ def generate(rng, tier):
     off = rng.randrange(step)
     for a in all_atts[off::step]:
         yield ("runs", [[rng.choice(TEXTS[:4]), list(a)]])
-    n = 6000 if tier == "thorough" else 600
+    n = 6000 if tier == "thorough" else 800
     for _ in range(n):
-        if rng.random() < 0.5:
-            f = canon.rand_fs_via_api(rng, depth=rng.choice([1, 2, 3, 4]))
-            yield ("runs", canon.canon_fs(f))
+        if rng.random() < 0.7:
+            # a program over the public API, with observations (str, len, hash, ...) interleaved so that
+            # memoised values exist before derived objects are made
+            yield ("expr", canon.rand_expr(rng, depth=rng.choice([1, 2, 3, 4])))
         else:
             yield ("runs", canon.rand_runs(rng))
 
 
 def run(inp):
+    if inp[0] == "expr":
+        f = canon.eval_expr(inp[1])
+        return {"runs": canon.canon_fs(f), "str": str(f)}
     f = canon.build_fs(inp[1])
-    return str(f)
+    return {"runs": inp[1], "str": str(f)}
 
 
 def to_coq(inp, out):
-    return "(%s, %s)" % (coq_fs(inp[1]), coq_str(out))
+    return "(%s, %s)" % (coq_fs(out["runs"]), coq_str(out["str"]))
 
 
 def to_json_input(inp):
-    return {"runs": inp[1]}
+    return {inp[0]: inp[1]}
 
 
 def to_json_output(out):
@@ -66,19 +70,20 @@ def to_json_output(out):
 
 
 def from_json(obj):
-    return ("runs", obj["runs"])
+    return ("expr", obj["expr"]) if "expr" in obj else ("runs", obj["runs"])
 
 
 def key(inp):
-    return repr(inp[1])
+    return repr(inp)
 
 
 def nontrivial(inp, out):
-    return any(s and any(a) for s, a in inp[1])
+    return any(s and any(a) for s, a in out["runs"])
 
 
 def stats(inp, out):
-    runs = inp[1]
+    runs = out["runs"]
+    yield "kind=" + inp[0]
     yield "runs=%d" % min(len(runs), 5)
     yield "chars=%s" % ("0" if not any(s for s, _ in runs) else "1-3" if sum(len(s) for s, _ in runs) <= 3 else "4+")
     if any(2 in a[2:] for _, a in runs):
@@ -92,6 +97,10 @@ def stats(inp, out):
 
 
 def shrink(inp):
+    if inp[0] == "expr":
+        for c in canon.shrink_expr(inp[1]):
+            yield ("expr", c)
+        return
     runs = inp[1]
     for i in range(len(runs)):
         yield ("runs", runs[:i] + runs[i + 1:])
